@@ -49,14 +49,13 @@ const WSS: [&str; 6] = ["", "", " ", "  ", "\t", "    "];
 const WORDS: [&str; 14] = [
     "alpha", "beta", "gamma", "x", "y=1", "é", "日本", "end.", "a b", "q", "()", "{}", "0", "fin",
 ];
-const LOOKALIKES: [&str; 11] = [
+const LOOKALIKES: [&str; 10] = [
     "TXTPP#runx y",
     "TXTPP#run\tx",
     "TXTPP #run x",
     "txtpp#run x",
     "TXTPP#foo TXTPP#run x",
     "TXTPP#includes a",
-    "XTXTPP#",
     "TXTPP#Write a",
     "#TXTPP",
     "TXTPP#tagx",
@@ -258,6 +257,12 @@ fn bytes_with_le(lines: &[String], rng: &mut Rng, opts: &GenOpts, final_nl: bool
 
 /// generate one project
 pub fn gen_project(rng: &mut Rng, opts: &GenOpts) -> Project {
+    debug_assert!(LOOKALIKES.iter().all(|l| txtpp::verif::Directive::detect_from(l).is_none()));
+    for l in LOOKALIKES {
+        if txtpp::verif::Directive::detect_from(l).is_some() {
+            panic!("generator look-alike {l:?} is a directive");
+        }
+    }
     let mut p = Project {
         files: vec![],
         dirs: vec![],
